@@ -503,3 +503,62 @@ def _(v):
         v.prove("MassAction.quantities.value", abs(r - 27.0) < 1e-12, detail=repr(r))
     except ImportError:
         pass
+
+
+@harness("C16", "as_RateExpr.unmodified_objects", functions=["chempy.kinetics.eyring:EyringParam.as_RateExpr", "chempy.kinetics.arrhenius:ArrheniusParam.as_RateExpr", RT + ":Eyring.__call__",
+                                                             RT + ":Arrhenius.__call__", "chempy.util._expr:Expr.arg"], kind="data")
+def _(v):
+    """the rate expressions exactly as as_RateExpr returns them (Eyring keeps its default reference concentration of 1 molar): value for orders 1-3
+    = k(T) * concentration product in molar**(1 - order), and a named override replaces exactly the argument it names (both parameter sets)"""
+    import math
+    from chempy.chemistry import Reaction
+    from chempy.kinetics.arrhenius import ArrheniusParam
+    from chempy.kinetics.eyring import EyringParam
+    R, kB_h = 8.314472, 2.08366e10
+    dH, dS, T = 72e3, 61.4, 310.0
+    kT = kB_h * T * math.exp(dS / R) * math.exp(-dH / (R * T))
+    conc = {"A": 0.7, "B": 1.3, "P": 0.0, "temperature": T}
+    bad = []
+    for order, reac, cp in ((1, {"A": 1}, 0.7), (2, {"A": 1, "B": 1}, 0.7 * 1.3), (3, {"A": 2, "B": 1}, 0.49 * 1.3)):
+        rxn = Reaction(reac, {"P": 1}, checks=())
+        ratex = EyringParam(dH, dS).as_RateExpr()
+        r = ratex(conc, reaction=rxn)
+        mag = float(getattr(r, "magnitude", r))
+        unit = str(getattr(r, "dimensionality", "dimensionless"))
+        want_unit = {1: "dimensionless", 2: "1/M", 3: "1/M**2"}[order]
+        if abs(mag / (kT * cp) - 1) > 2e-5 or unit != want_unit:
+            bad.append((order, mag, kT * cp, unit))
+    v.prove("eyring_with_its_default_reference_concentration", not bad, detail=repr(bad))
+    rxn = Reaction({"A": 1}, {"P": 1}, checks=())
+    ey = EyringParam(dH, dS).as_RateExpr(unique_keys=("pre", "dHR"))
+    base = float(getattr(ey(conc, reaction=rxn), "magnitude", 0))
+    pre_only = float(getattr(ey(dict(conc, pre=2.0), reaction=rxn), "magnitude", 0))
+    dh_only = float(getattr(ey(dict(conc, dHR=0.0), reaction=rxn), "magnitude", 0))
+    v.prove("eyring_named_override_replaces_exactly_that_argument", abs(base / (kT * 0.7) - 1) < 2e-5 and abs(pre_only / (2.0 * T * math.exp(-dH / (R * T)) * 0.7) - 1) < 2e-5
+            and abs(dh_only / (kB_h * math.exp(dS / R) * T * 0.7) - 1) < 2e-5, detail=repr((base, pre_only, dh_only)))
+    A, Ea = 3e9, 4.2e4
+    ar = ArrheniusParam(A, Ea).as_RateExpr(unique_keys=("A_fwd", "EaR_fwd"))
+    v0 = ar(conc, reaction=rxn)
+    v1 = ar(dict(conc, A_fwd=5.0), reaction=rxn)
+    v2 = ar(dict(conc, EaR_fwd=0.0), reaction=rxn)
+    v3 = ar(dict(conc, A_fwd=0.0), reaction=rxn)
+    v.prove("arrhenius_named_overrides", abs(v0 / (A * math.exp(-Ea / (R * T)) * 0.7) - 1) < 1e-9 and abs(v1 / (5.0 * math.exp(-Ea / (R * T)) * 0.7) - 1) < 1e-9 and abs(v2 / (A * 0.7) - 1) < 1e-12 and v3 == 0.0,
+            detail=repr((v0, v1, v2, v3)))
+
+
+@harness("C16", "MassAction.arithmetic_values", functions=["chempy.util._expr:Expr.__add__", "chempy.util._expr:Expr.__sub__", "chempy.util._expr:Expr.__neg__", "chempy.util._expr:Expr.__mul__",
+                                                          "chempy.util._expr:Expr.__truediv__", RT + ":MassAction.__call__"], kind="shape-bounded", div_mode="assume", samples=20)
+def _(v):
+    """arithmetic combinations of mass-action rate expressions evaluate to the same combination of their values (k * concentration product each)"""
+    from chempy.chemistry import Reaction
+    from chempy.kinetics.rates import MassAction
+    k1, k2, s = v.real("k1", lo=0.1, hi=9), v.real("k2", lo=0.1, hi=9), v.real("s", lo=0.5, hi=4)
+    cA, cB = v.real("cA", lo=0.01, hi=5), v.real("cB", lo=0.01, hi=5)
+    rxn = Reaction({"A": 2, "B": 1}, {"P": 1}, checks=())
+    var = {"A": cA, "B": cB, "P": 0.0}
+    cp = cA * cA * cB
+    m1, m2 = MassAction([k1]), MassAction([k2])
+    for label, expr, want in (("sum", v.call(m1.__add__, m2), (k1 + k2) * cp), ("difference", v.call(m1.__sub__, m2), (k1 - k2) * cp), ("negation", v.call(m1.__neg__), -k1 * cp),
+                              ("times_number", v.call(m1.__mul__, s), k1 * s * cp), ("number_times", v.call(m1.__rmul__, s), s * k1 * cp), ("over_number", v.call(m1.__truediv__, s), k1 / s * cp),
+                              ("negated_scaled_sum", v.call(v.call(v.call(m1.__add__, m2).__mul__, s).__neg__), -(k1 + k2) * s * cp)):
+        v.prove_identity(label, v.call(expr, var, reaction=rxn), want)
